@@ -236,11 +236,29 @@ func (e *executor) processInput(workflow *Workflow) (schema.Scope, error) {
 	if !ok {
 		return nil, fmt.Errorf("bug: unserialized input is not a scope")
 	}
-	typedInput.ApplySelf()
+	if err := applySelf(typedInput); err != nil {
+		return nil, &ErrInvalidWorkflow{fmt.Errorf("invalid workflow input section (%w)", err)}
+	}
 	if err := validateDefaults(typedInput); err != nil {
 		return nil, &ErrInvalidWorkflow{fmt.Errorf("invalid workflow input section (%w)", err)}
 	}
 	return typedInput, nil
+}
+
+// applySelf links the references of the scope to its objects. The schema panics when a reference
+// names an object that the scope does not declare.
+func applySelf(scope schema.Scope) (err error) {
+	defer func() {
+		if r := recover(); r != nil {
+			if asError, isError := r.(error); isError {
+				err = asError
+			} else {
+				err = fmt.Errorf("%v", r)
+			}
+		}
+	}()
+	scope.ApplySelf()
+	return nil
 }
 
 // validateDefaults checks that the declared default values of the input can be decoded.
